@@ -131,13 +131,13 @@ func (session *HermesSession) Run(workingDir string, args []string, logID string
 		//************ INPUT CURRENT DATE FOR FERTILIZATION FORECAST ************
 		PROG := driConfig.VirtualDateFertilizerPrediction
 		DAYOUT := driConfig.AnnualOutputDate + driConfig.EndDate[4:]
-		OUTDAY, OUTY := g.Datum(DAYOUT)
-		if OUTDAY > 365 {
-			OUTDAY = 365
-		}
+		_, OUTY := g.Datum(DAYOUT)
 		if OUTY >= g.ENDE {
 			g.ENDE = OUTY + 1
 		}
+		// the annual output is keyed by the calendar date (month, day) of the annual output date,
+		// not by its day-of-year in the end year: it falls on that date in leap and non-leap years
+		_, outMonth, outDayOfMonth := KalenderDate(OUTY)
 
 		PR = SetPrognoseDate(PROG, &g)
 
@@ -706,7 +706,7 @@ func (session *HermesSession) Run(workingDir string, args []string, logID string
 
 			// *********************** JAHRESAUSGABE ***************************
 			// *********************** ANNUAL OUTPUT ***************************
-			if g.TAG.Index+1 == OUTDAY {
+			if isAnnualOutputDay(ZEIT, outMonth, outDayOfMonth) {
 				g.AUS[JZ] = g.OUTSUM
 				g.SIC[JZ] = (g.SICKER - math.Abs(g.CAPSUM))
 				g.AUFNA[JZ] = g.AUFNASUM
@@ -785,6 +785,16 @@ func (session *HermesSession) Run(workingDir string, args []string, logID string
 		out <- result
 	}
 
+}
+
+// isAnnualOutputDay tells whether the day number zeit falls on the annual output date (month, day).
+// An annual output date 29.02. is written on 01.03. in years without a 29.02.
+func isAnnualOutputDay(zeit, outMonth, outDayOfMonth int) bool {
+	year, month, day := KalenderDate(zeit)
+	if month == outMonth && day == outDayOfMonth {
+		return true
+	}
+	return outMonth == 2 && outDayOfMonth == 29 && month == 3 && day == 1 && year%4 != 0
 }
 
 type RunReturn struct {
